@@ -27,7 +27,7 @@ LEVEL_TEXT = ('History independence is a reachability question over the decoder\
               'modes (-a, -a -r, -l) are compared with per-file decodes.')
 LEVEL_NOTE = ('depth bound 2 (quick) / 4 (thorough) beyond which only fingerprint-distinct states are extended; state kept '
               'outside the repository\'s modules (e.g. in the interpreter) is covered only by the un-merged depth-2 pass')
-RULE = ('events = 30 PELs (built-in JSON, fixture parser ok / raising / ImportError in call / None / absent module, callouts '
+RULE = ('events = 33 PELs (built-in JSON, fixture parser ok / raising / ImportError in call / None / absent module, callouts '
         'module ok / raising, SRC parser ok / raising, two-target LP, PEL truncated mid-SRC / mid-LP, BMC PEL with shipped '
         'parsers, I/O-drawer PEL, hw-diags PEL) x plug-ins {on, off}; BFS over fingerprints from each first event; plus all '
         'event sequences of length 2 (thorough 3) without merging; plus 3 directory runs. Non-trivial: a transition taken from a non-initial '
@@ -36,7 +36,8 @@ ASSUMPTIONS = ['a state is the set of module-level/class-level mutable objects o
                'calloutparsers.* plus which plug-in modules are loaded']
 
 BEHAVIOUR = {'udparsers.b1111.b1111': 'by-payload', 'calloutparsers.bcallouts.bcallouts': 'by-payload',
-             'srcparsers.bsrc.bsrc': 'by-payload', 'udparsers.b4444.b4444': 'obj'}
+             'srcparsers.bsrc.bsrc': 'by-payload', 'udparsers.b4444.b4444': 'obj',
+             'udparsers.b5555.b5555': 'import-missing-dependency', 'udparsers.b6666.b6666': 'import-raises'}
 
 
 def _ud(sel, tag):
@@ -115,6 +116,17 @@ def pel_specs():
         {'t': 'UD', 'comp': 0xE500, 'sub': 1, 'payload': ((5).to_bytes(4, 'big') + bytes(range(12))).hex()},
         {'t': 'UD', 'comp': 0xE500, 'sub': 2, 'payload': ((1).to_bytes(4, 'big') + bytes(range(9))).hex()},
         {'t': 'ED', 'creator': 'M', 'comp': 0x2C00, 'sub': 84, 'ver': 7, 'payload': '0102030405060708'}]}
+    # parser modules that are installed but fail while being loaded (every consultation must fail the same way), and
+    # built-in formats fed bytes they cannot decode
+    specs['ud_loadfail'] = {'creator': 'B', 'eid': 0x5000001D, 'sections': [
+        {'t': 'UD', 'comp': 0x5555, 'payload': 'a1a2'}, _ud(0, 0xA3), {'t': 'UD', 'comp': 0x5555, 'payload': 'a4'}]}
+    specs['ud_import_raises'] = {'creator': 'B', 'eid': 0x5000001E, 'sections': [
+        {'t': 'ED', 'creator': 'B', 'comp': 0x6666, 'payload': 'b1b2'}, {'t': 'UD', 'comp': 0x6666, 'payload': 'b3'}]}
+    specs['bmc_undecodable'] = {'creator': 'O', 'eid': 0x5000001F, 'sections': [
+        {'t': 'UD', 'comp': 0x2000, 'sub': 1, 'payload': b'{"a": "caf\xe9"}\0\0'.hex()},
+        {'t': 'UD', 'comp': 0x2000, 'sub': 3, 'payload': b'  two\nlines \xff\n'.hex()},
+        {'t': 'UD', 'comp': 0x2000, 'sub': 1, 'payload': b'{"v": 1e999}'.hex()},
+        {'t': 'LP', 'name': 'lpar5', 'targets': [1]}]}
     raw = collections.OrderedDict()
     for k, s in specs.items():
         raw[k] = pelgen.encode_pel(pelgen.pel_from_spec(s))
